@@ -2,3 +2,5 @@
 pub mod stmkit;
 pub mod certkit;
 pub mod certrand;
+pub use chrono;
+pub use slog;
